@@ -41,7 +41,9 @@ ASSUMPTIONS = [
     "operands are bounded (** exponents <= 64, sequence repetition <= 2000); larger ones are skipped, not judged",
     "freshness: only harmful staleness is flagged (reference value changed under != AND mpf's fresh evaluate() differs "
     "from the delivered value AND the future is not done after the settle + 6 extra loop iterations); spurious "
-    "notifications are accepted; a change to an equal value of another type (1 -> True -> 1.0) is not a change",
+    "notifications are accepted; a change to an equal value of another type (1 -> True -> 1.0) is not a change, and a "
+    "staleness that exists only because of such a replacement (decided by re-evaluating the reference with these "
+    "replacements undone) is not flagged",
     "values are int/float/bool/str/None as the property quantifies; list/dict valued player or machine variables are "
     "not generated (the accrual's list-valued `value` is read through a literal index only)",
     "device attributes covered: counter value/enabled/completed (system-wide, mode, persisted), accrual value[i], switch "
@@ -297,10 +299,13 @@ class _Mirrors:
         missing = R.RefMissing
         real_attr = {(c, d, a): r for c, d, a, r in R.DEVICE_ATTRS}
         reads = self.reads = set()
+        override = self.override = {}       # key -> value, used for counterfactual evaluations only
 
         class Machine:
             def __getattr__(self, n):
                 reads.add(("machine", n))
+                if ("machine", n) in override:
+                    return override[("machine", n)]
                 e = m.variables.machine_vars.get(n)
                 return e["value"] if e is not None else None
             __getitem__ = __getattr__
@@ -308,6 +313,8 @@ class _Mirrors:
         class Settings:
             def __getattr__(self, n):
                 reads.add(("settings", n))
+                if ("settings", n) in override:
+                    return override[("settings", n)]
                 entry = m.settings._settings[n]
                 e = m.variables.machine_vars.get(entry.machine_var)
                 v = e["value"] if e is not None else entry.default
@@ -318,7 +325,10 @@ class _Mirrors:
                 self.__dict__["_idx"] = idx
 
             def __getattr__(self, n):
-                reads.add(("current_player", n) if self._idx is None else ("players", self._idx, n))
+                key = ("current_player", n) if self._idx is None else ("players", self._idx, n)
+                reads.add(key)
+                if key in override:
+                    return override[key]
                 game = m.game
                 if not game or not game.player:
                     raise missing("not in a game")
@@ -344,6 +354,8 @@ class _Mirrors:
                 if len(path) < 3:
                     return Dev(path)
                 reads.add(("device",) + path)
+                if ("device",) + path in override:
+                    return override[("device",) + path]
                 dev = getattr(m, path[0])[path[1]]
                 v = getattr(dev, real_attr[path])
                 return list(v) if isinstance(v, list) else v
@@ -351,6 +363,29 @@ class _Mirrors:
 
         self.ns = {"machine": Machine(), "settings": Settings(), "current_player": Player(None),
                    "players": Players(), "device": Dev(())}
+
+    def read_key(self, key):
+        """-> ('v', raw value) or ('missing',) for a leaf key as produced by c16_ref.placeholder_leaves."""
+        from vlib import c16_ref as R
+        try:
+            if key[0] == "players":
+                return ("v", getattr(self.ns["players"][key[1]], key[2]))
+            obj = self.ns[key[0]]
+            for part in key[1:]:
+                obj = getattr(obj, part)
+            return ("v", obj)
+        except R.RefMissing:
+            return ("missing",)
+
+    def type_only_changes(self, before, leaves):
+        """Leaf keys whose value was replaced by an equal one of another type (1 -> True -> 1.0): {key: old value}."""
+        from vlib import c16_ref as R
+        out = {}
+        for leaf in leaves:
+            old, new = before.get(leaf[3]), self.read_key(leaf[3])
+            if old and old[0] == "v" and new[0] == "v" and not R.differs(old[1], new[1]) and not R.same(old[1], new[1]):
+                out[leaf[3]] = old[1]
+        return out
 
 
 class _World:
@@ -487,13 +522,14 @@ def _judge(ref_kind, ref_val, got, default, conv=None, subscribe=False):
 
 def _attribute(fail, feats, subscribe=False):
     """Mechanism signature for a failed differential evaluation."""
-    if "tuple" in feats:
+    if "tuple" in feats and _is_live("C16:tuple_wrong_value"):
         return "C16:tuple_wrong_value"
-    if "computed_index" in feats:
+    if "computed_index" in feats and _is_live("C16:computed_index_unsupported"):
         return "C16:computed_index_unsupported"
-    if fail == "raises_instead_of_default" and "usub" in feats:
+    if fail == "raises_instead_of_default" and "usub" in feats and _is_live("C16:unary_minus_raises_instead_of_default"):
         return "C16:unary_minus_raises_instead_of_default"
-    if subscribe and fail == "missing_variable_raises" and "item_placeholder" in feats:
+    if subscribe and fail == "missing_variable_raises" and "item_placeholder" in feats and \
+            _is_live("C16:item_read_subscribe_raises"):
         return "C16:item_read_subscribe_raises"
     return "C16:" + fail
 
@@ -535,31 +571,124 @@ def _explain(changed, ops, feats=(), prev_kind=None, now=None):
     for src, root, item, _key in changed:
         var = re.search(r"\b(pv\d|mv\w)\b", src)
         var = var.group(1) if var else None
+        # every mechanism that could explain this leaf; the ones not present in this tree are filtered out below
         if root in ("current_player", "players") and any(o[0] == "set_pv" and o[2] == var and o[3] is None for o in ops):
             sigs.append("C16:player_var_none_not_notified")
-        elif item:
+        if item:
             sigs.append("C16:item_read_not_subscribed")
-        elif root == "current_player" and ("stop_game" in kinds or "drain" in kinds) and now.get(src) == ("default",):
+        if root == "current_player" and ("stop_game" in kinds or "drain" in kinds) and now.get(src) == ("default",):
             sigs.append("C16:current_player_not_notified_at_game_end")
-        elif root == "machine" and any(o[0] == "remove_mv" and o[1] == var for o in ops):
+        if root == "machine" and any(o[0] == "remove_mv" and o[1] == var for o in ops):
             sigs.append("C16:machine_var_removed_not_notified")
-        elif root == "device" and ".accruals." in src and any(o[0] == "post" and o[1].startswith("a1_e") for o in ops):
+        if root == "device" and "accruals" in src and any(o[0] == "post" and o[1].startswith("a1_e") for o in ops):
             sigs.append("C16:accrual_inplace_change_not_notified")
-        elif root == "device" and any(("." + d + ".") in src for d in ("c1", "c2", "a1")) and \
+        if root == "device" and _key[2] in ("c1", "c2", "a1") and \
                 any(o[0] in ("drain", "stop_game", "start_game") or (o[0] == "post" and o[1] in ("m1_start", "m1_stop"))
                     for o in ops):
             sigs.append("C16:logic_block_state_swap_not_notified")
     if changed and prev_kind in ("missing", "typeerror") and "if" in feats:
         # the previous evaluation ended in a TemplateEvalError below an if-else
         sigs.append("C16:if_branch_error_drops_test_subscription")
+    sigs = [x for x in sigs if _is_live(x)]
     for s in _KNOWN_ORDER:      # the documented player-variable behaviour explains a case only if nothing else does
         if s in sigs and s != "C16:player_var_none_not_notified":
             return s
     return sigs[0] if sigs else None
 
 
+
+# ======================================================================================================================
+# Which of the already understood mechanisms are present in the tree under test?  Decided once per worker process by
+# one canonical minimal reproduction each (these are also the shortest repros of the defects).  The answer is used ONLY
+# to label a violation with a mechanism signature - never to decide whether something is a violation.
+_LIVE = None
+
+
+def _probe_mechanisms():
+    global _LIVE
+    if _LIVE is not None:
+        return _LIVE
+    from vlib import c16_ref as R
+    from vlib.boot import VMachine
+    live = {}
+    default = _Sentinel()
+    with VMachine(_config(), modes=_MODES, kind="fake") as vm:
+        m = vm.machine
+        pm = m.placeholder_manager
+        world = _World(vm, {})
+
+        def ev(src, env):
+            return _call(pm.build_raw_template(src, default).evaluate, env)
+
+        def stale_after(src, action):
+            """Subscribe (re-subscribing on every notification like config players do), act, settle:
+            True when the last delivered value is outdated but the last future is still pending."""
+            t = pm.build_raw_template(src, default)
+            state = {}
+
+            def resubscribe(fut=None):
+                if fut is not None and fut.cancelled():
+                    return
+                state["value"], state["fut"] = t.evaluate_and_subscribe({})
+                state["fut"].add_done_callback(resubscribe)
+
+            resubscribe()
+            action()
+            world.settle(0.37)
+            after = t.evaluate({})
+            res = R.differs(state["value"], after) and not state["fut"].done()
+            state["fut"].cancel()
+            return res
+
+        def guarded(name, fn):
+            try:
+                live[name] = bool(fn())
+            except BaseException as e:     # noqa - a probe that blows up keeps its label available
+                if isinstance(e, (KeyboardInterrupt, SystemExit)) or type(e).__name__ == "CaseTimeout":
+                    raise
+                live[name] = True
+            vm.t._exception = None
+
+        guarded("C16:tuple_wrong_value", lambda: not (ev("(1, c)", {"c": 2})[0] == "value" and
+                                                      R.same(ev("(1, c)", {"c": 2})[1], (1, 2))))
+        guarded("C16:computed_index_unsupported", lambda: ev("'ab'[c]", {"c": 1}) != ("value", "b"))
+        guarded("C16:unary_minus_raises_instead_of_default", lambda: ev("-c", {"c": None})[0] == "raise")
+        guarded("C16:item_read_subscribe_raises",
+                lambda: _call(pm.build_raw_template("current_player['pv0']", default).evaluate_and_subscribe, {})[0]
+                == "raise")
+        guarded("C16:item_read_not_subscribed",
+                lambda: stale_after("machine['mv0']", lambda: m.variables.set_machine_var("mv0", 77)))
+        m.variables.set_machine_var("mv2", 1)
+        guarded("C16:machine_var_removed_not_notified",
+                lambda: stale_after("machine.mv2", lambda: m.variables.remove_machine_var("mv2")))
+        guarded("C16:if_branch_error_drops_test_subscription",
+                lambda: stale_after("machine.mvx + 1 if machine.mv0 else 2",
+                                    lambda: m.variables.set_machine_var("mv0", 0)))
+        try:
+            world.apply(["start_game"])
+            world.apply(["post", "m1_start"])
+            world.settle(0.37)
+        except BaseException:   # noqa
+            pass
+        guarded("C16:player_var_none_not_notified",
+                lambda: stale_after("current_player.pv0", lambda: setattr(m.game.player, "pv0", None)))
+        guarded("C16:accrual_inplace_change_not_notified",
+                lambda: stale_after("device.accruals.a1.value[0]", lambda: m.events.post("a1_e0")))
+        guarded("C16:logic_block_state_swap_not_notified",
+                lambda: stale_after("device.counters.c1.value", lambda: m.events.post("m1_stop")))
+        guarded("C16:current_player_not_notified_at_game_end",
+                lambda: stale_after("current_player.pv1", lambda: vm.t.stop_game()))
+    _LIVE = live
+    return live
+
+
+def _is_live(sig):
+    return _probe_mechanisms().get(sig, True)
+
+
 # ======================================================================================================================
 def run_case(case):
+    _probe_mechanisms()     # before the case's own machine exists (closing a machine unsets the current event loop)
     if case["kind"] == "eval":
         return _run_eval(case)
     return _run_sub(case)
@@ -709,13 +838,31 @@ def _run_sub(case):
 
     clauses = {"sub_value": 0, "fresh": 0, "player_e2e": 0}
     obs = {"ops_applied": 0, "ops_skipped": 0, "notified": 0, "notified_and_changed": 0, "resubscribed": 0,
-           "fresh_eval_raised": 0, "templates_dropped": 0, "changed_but_mpf_equal": 0, "only_type_changed": 0}
+           "fresh_eval_raised": 0, "templates_dropped": 0, "changed_but_mpf_equal": 0, "only_type_changed": 0,
+           "player_reevaluations": 0}
     viol = []
     default = _Sentinel()
     conds = []
     for c in case.get("conds", []):
         if c not in conds:
             conds.append(c)
+    restore = []
+    try:
+        entries = _run_sub_body(case, conds, clauses, obs, viol, default, restore)
+    finally:
+        for undo in restore:
+            undo()
+
+    feats = set()
+    for e in entries:
+        feats |= e["feats"]
+    shape = "S:" + ">".join(obs.pop("_shape_ops")) + "|" + ",".join(sorted(f for f in feats if not f.startswith("bin:")))
+    return _finish(viol, clauses, shape, clauses["fresh"] > 0, obs)
+
+
+def _run_sub_body(case, conds, clauses, obs, viol, default, restore):
+    from vlib import c16_ref as R
+    from vlib.boot import VMachine
 
     with VMachine(_config(conds), modes=_MODES, kind="fake") as vm:
         m = vm.machine
@@ -738,6 +885,7 @@ def _run_sub(case):
             e["ref"] = ref
             e["reads"] = set(mirrors.reads)
             e["leafvals"] = leaf_vals(e["leaves"])
+            e["keyvals"] = {l[3]: mirrors.read_key(l[3]) for l in e["leaves"]}
             e["ops_since"] = []
             got = _call(e["t"].evaluate_and_subscribe, {})
             clauses["sub_value"] += 1
@@ -767,10 +915,34 @@ def _run_sub(case):
         for e in entries:
             subscribe(e, "initial")
 
+        # ---- condition-driven light_player entries, end to end -------------------------------------------------
+        # What the player last acted on is known exactly: every re-evaluation ends in a handle_subscription_change call
+        # (handler-invocation boundary), where the state the condition was computed from is recorded.
         cond_leaves = [R.placeholder_leaves(c) for c in conds]
-        cond_ok_vals = [leaf_vals(l) for l in cond_leaves]
-        cond_ops = [[] for _ in conds]
-        cond_ok_kind = [_ref(c, ns)[0] for c in conds]
+        snaps = [None for _ in conds]
+
+        def snapshot(i):
+            mirrors.reads.clear()
+            ref = _ref(conds[i], ns)
+            snaps[i] = {"ref": ref, "reads": set(mirrors.reads), "vals": leaf_vals(cond_leaves[i]),
+                        "keyvals": {l[3]: mirrors.read_key(l[3]) for l in cond_leaves[i]}, "ops": []}
+
+        from mpf.config_players.light_player import LightPlayer
+        orig_handle = LightPlayer.handle_subscription_change
+
+        def observed_handle(self_, value, settings, priority, context, key):
+            if self_.machine is m and key in conds:
+                try:
+                    snapshot(conds.index(key))
+                    obs["player_reevaluations"] += 1
+                except Exception:   # noqa - observation only
+                    pass
+            return orig_handle(self_, value, settings, priority, context, key)
+
+        LightPlayer.handle_subscription_change = observed_handle
+        restore.append(lambda: setattr(LightPlayer, "handle_subscription_change", orig_handle))
+        for i in range(len(conds)):
+            snapshot(i)
 
         def check_conds(step, op):
             for i, c in enumerate(conds):
@@ -780,21 +952,32 @@ def _run_sub(case):
                 truth = bool(ref[1]) if ref[0] == R.VALUE else False
                 lit = tuple(m.lights["l%d" % i].get_color().rgb) != (0, 0, 0)
                 clauses["player_e2e"] += 1
+                snap = snaps[i]
                 if op is not None:
-                    cond_ops[i].append(op)
+                    snap["ops"].append(op)
                 if lit == truth:
-                    cond_ok_vals[i] = leaf_vals(cond_leaves[i])
-                    cond_ops[i] = []
-                    cond_ok_kind[i] = ref[0]
                     continue
                 now = leaf_vals(cond_leaves[i])
-                changed = [l for l in cond_leaves[i] if _norm_differs(cond_ok_vals[i].get(l[0]), now.get(l[0]))]
+                changed = [l for l in cond_leaves[i]
+                           if _norm_differs(snap["vals"].get(l[0]), now.get(l[0])) and l[3] in snap["reads"]]
+                type_only = mirrors.type_only_changes(snap["keyvals"], cond_leaves[i])
+                if changed and type_only and step >= 0:
+                    mirrors.override.update(type_only)
+                    try:
+                        cf = _ref(c, ns)
+                    finally:
+                        mirrors.override.clear()
+                    cf_truth = bool(cf[1]) if cf[0] == R.VALUE else False
+                    ok_truth = bool(snap["ref"][1]) if snap["ref"][0] == R.VALUE else False
+                    if cf[0] in (R.SOFT, R.SKIP) or cf_truth == ok_truth:
+                        changed = []
                 if not changed and step >= 0:
-                    obs["only_type_changed"] += 1      # see above; consistent before and nothing differs under !=
+                    # nothing the last evaluation read differs under != (only equal values of another type)
+                    obs["only_type_changed"] += 1
                     continue
-                sig = _explain(changed, cond_ops[i], R.features(c), cond_ok_kind[i], now) or "C16:condition_player_stale"
+                sig = _explain(changed, snap["ops"], R.features(c), snap["ref"][0], now) or "C16:condition_player_stale"
                 viol.append({"clause": "player_e2e", "sig": sig,
-                             "detail": {"condition": c, "step": step, "ops_since_consistent": cond_ops[i][-6:],
+                             "detail": {"condition": c, "step": step, "ops_since_last_evaluation": snap["ops"][-6:],
                                         "light_on": lit, "python_truth": truth,
                                         "changed_leaves": [l[0] for l in changed]}})
 
@@ -812,7 +995,7 @@ def _run_sub(case):
                     obs["ops_skipped"] += 1      # a test-case helper's own precondition assert: op not applicable
                     continue
                 tuples = [e["src"] for e in entries if "tuple" in e["feats"]]
-                if tuples and "ensure_future" in txt:
+                if tuples and "ensure_future" in txt and _is_live("C16:tuple_wrong_value"):
                     # the malformed (value, subscriptions) pairs of a tuple literal reached Util.any
                     viol.append({"clause": "sub_value", "sig": "C16:tuple_wrong_value",
                                  "detail": {"step": step, "op": op, "templates_with_tuple": tuples,
@@ -860,8 +1043,18 @@ def _run_sub(case):
                 # only what the delivered value was computed from can be expected to notify
                 changed_leaves = [l for l in e["leaves"]
                                   if l[3] in e["reads"] and _norm_differs(e["leafvals"].get(l[0]), now.get(l[0]))]
+                type_only = mirrors.type_only_changes(e["keyvals"], e["leaves"])
+                if changed_leaves and type_only:
+                    # would the != changes alone (type-only replacements undone) have changed the value?
+                    mirrors.override.update(type_only)
+                    try:
+                        counterfactual = _ref(e["src"], ns)
+                    finally:
+                        mirrors.override.clear()
+                    if not _norm_differs(_norm(*e["ref"]), _norm(*counterfactual)):
+                        changed_leaves = []
                 if not changed_leaves:
-                    # nothing that was read differs under != : a value was replaced by an equal one of another type
+                    # the value differs only because something was replaced by an equal value of another type
                     obs["only_type_changed"] += 1
                     subscribe(e, "after type-only change at step %d" % step)
                     continue
@@ -881,8 +1074,5 @@ def _run_sub(case):
                 except Exception:   # noqa
                     pass
 
-    feats = set()
-    for e in entries:
-        feats |= e["feats"]
-    shape = "S:" + ">".join(shape_ops) + "|" + ",".join(sorted(f for f in feats if not f.startswith("bin:")))
-    return _finish(viol, clauses, shape, clauses["fresh"] > 0, obs)
+    obs["_shape_ops"] = shape_ops
+    return entries
